@@ -431,7 +431,20 @@ func c10Sig(c offCase, resp, fallback string) string {
 	py, _ := ry.Float64()
 	p := clip.StripDuplicates(c.Paths[0], clip.EndType(c.ET) == clip.Joined)
 	if clip.EndType(c.ET) == clip.Joined && len(p) != 2 {
-		return fallback // Joined loops build no end caps (two-point Joined paths are turned into capped ones)
+		// Joined loops build no end caps (two-point Joined paths are turned into capped ones).  A loop
+		// that runs back over itself (a vertex where the path reverses by 180 degrees) is stroked as two
+		// outlines of opposite orientation whose overlap cancels in the final Positive union
+		// (KNOWN_FINDINGS.txt: site:joined-retraced-loop)
+		n := len(p)
+		for i := range p {
+			a, b, cc := p[(i+n-1)%n], p[i], p[(i+1)%n]
+			cross := (b.X-a.X)*(cc.Y-b.Y) - (b.Y-a.Y)*(cc.X-b.X)
+			dot := (b.X-a.X)*(cc.X-b.X) + (b.Y-a.Y)*(cc.Y-b.Y)
+			if cross == 0 && dot < 0 {
+				return "site:joined-retraced-loop"
+			}
+		}
+		return fallback
 	}
 	if len(p) < 2 {
 		return fallback
